@@ -407,6 +407,11 @@ def run(run: Run) -> int:
     for _ in range(150 if quick else 2500):
         ins, outs = g.program()
         cases.append(B.Case(ins, outs, False, {"random": True}))
+    # second tie (translator): the source text of Builder.ScopeTree.parent / .lca -> Gallina, proved equal to the model's parent / lca
+    from harness import pysrc
+    from harness.common import REPO
+    tie = pysrc.check_tie(run, "C04/source-tie/equivalence-theorems", "Builder.ScopeTree.parent / .lca (src/spox/_build.py)",
+                          lambda: pysrc.translate_scope_tree((REPO / "src/spox/_build.py").read_text()), "SrcBuildGen.v", "SrcBuildFacts.v", 4)
     mism = B.correspondence(run, "c04", cases)
     # non-vacuity of the validator-free emission theorem: its premises (duplicate-free traversal, no graph twice in the graph
     # tree) evaluated by the model on every program that builds
@@ -460,6 +465,7 @@ def run(run: Run) -> int:
         "disagreements_checked": len(mism), "direct_oracle_failures": n_bad,
         "emission_theorem_premises_met": f"{n_prem} of {len(built)} programs that build",
         "coverage_theorem_premises_met": f"{n_cprem} of {len(built)} programs that build",
+        "source_tie": tie,
         "input_distribution": {"outcomes": dict(out_hist), "operators_random_part": g.hist},
         "samples": [B.describe(c) for c in (cases[0], cases[n_skel // 2], cases[-1])],
     }
